@@ -112,6 +112,7 @@ fn base_models(rep: &Report, kinds: &[Kind]) -> Vec<ModelDef> {
         })
     };
     v.extend(defs("U1ci", u::u1().into_iter().filter(|l| between(l)).collect(), kinds, true));
+    v.extend(defs_named(u::uci_adv(), kinds, true));
     v
 }
 
@@ -128,6 +129,7 @@ fn ci_models(rep: &Report, kinds: &[Kind]) -> Vec<ModelDef> {
     // stepped with all 256 byte values, so a class shared between 0xFE and
     // 0xFF, or 0x7F and 0x80, shows at the table level)
     v.extend(defs("UedgeCi", u::uedge(), kinds, true));
+    v.extend(defs_named(u::uci_adv(), kinds, true));
     let pre: Vec<(String, u::Pats)> = crate::e3::prefilter_families().into_iter().filter(|f| f.ci).map(|f| (format!("Upre:{}", f.name), f.pats)).collect();
     v.extend(defs_named(pre, kinds, true));
     v
